@@ -75,7 +75,9 @@ def allocClusterFs (prev : Option Nat) (zero : Bool) : Prog Nat := do
   match fs.fsInfo.free with
   | some 0 => .fail .panic
   | _ =>
-    Prog.setFs { fs with fsInfo := ({ fs.fsInfo with next := some (c + 1), dirty := true }).mapFree (· - 1) }
+    -- keep the hint inside the range of valid clusters
+    let nextFree := if c + 1 < fs.totalClusters + 2 then c + 1 else 2
+    Prog.setFs { fs with fsInfo := ({ fs.fsInfo with next := some nextFree, dirty := true }).mapFree (· - 1) }
     pure c
 
 /-! ### `File` -/
